@@ -247,7 +247,35 @@ func (g *G) extraTmpl(d int) *Node {
 
 // extraStmt returns a statement (group) of one of the extra kinds.
 func (g *G) extraStmt(d int) []*Node {
-	switch g.intn(14, "extraStmtKind") {
+	switch g.intn(15, "extraStmtKind") {
+	case 14:
+		// one operand of == / != reaches the same array twice (through a variable), the other holds two arrays of its own
+		// at those places, equal to it or not: structural equality looks at both sides of every pair
+		src := g.FreshName()
+		g.Env.Put(&VarInfo{Name: src, T: TAny, Len: -1})
+		n := 1 + g.intn(3, "aliasLen")
+		lit := g.arrILit(n)
+		same := func() *Node { // a literal with the same elements as lit, or with the last one changed
+			c := &Node{K: lit.K, S: lit.S}
+			for _, k := range lit.Kids {
+				kk := *k
+				c.Kids = append(c.Kids, &kk)
+			}
+			if g.intn(2, "aliasDiffer") == 0 && len(c.Kids) > 0 {
+				c.Kids[len(c.Kids)-1] = Int(int64(77 + g.intn(9, "aliasOther")))
+			}
+			return c
+		}
+		shared := N("arr", Var(src), Var(src))
+		own := N("arr", same(), same())
+		res := g.FreshName()
+		g.Env.Put(&VarInfo{Name: res, T: TAny, Len: -1})
+		op := []string{"==", "!="}[g.intn(2, "aliasOp")]
+		l, r := shared, own
+		if g.intn(2, "aliasSide") == 0 {
+			l, r = own, shared
+		}
+		return []*Node{Set(src, lit), Set(res, N("arr", Bin(op, l, r), Bin(op, N("arr", Var(src)), N("arr", same()))))}
 	case 13:
 		// two concatenations from one array (of a length that leaves spare capacity behind it, or grown by push / shrunk by
 		// pop), then a write through one result: every + gives a fresh array
